@@ -777,8 +777,14 @@ func c01HalfClose(r *ev.Run, s *sutc.SUT, seed int64, n int) {
 			reqs = append(reqs, q)
 			raw = append(raw, q.raw...)
 		}
+		// every other pipeline does not end with a shutdown but with bytes the decoder rejects: the connection is closed for
+		// them, but the requests read before them are answered first
+		malformed := i%2 == 1
+		if malformed {
+			raw = append(raw, [][]byte{[]byte("*1\r\n$-5\r\n"), []byte("PING\n"), []byte("*2\r\n$3\r\nGET\r\n$x\r\n"), []byte("$3\rabc\r\n")}[rnd.Intn(4)]...)
+		}
 		conn.C.Write(raw)
-		if tc, ok := conn.C.(*net.TCPConn); ok {
+		if tc, ok := conn.C.(*net.TCPConn); ok && !malformed {
 			tc.CloseWrite()
 		}
 		got := 0
@@ -796,7 +802,11 @@ func c01HalfClose(r *ev.Run, s *sutc.SUT, seed int64, n int) {
 			got++
 		}
 		if problem == "" {
-			if _, err := conn.Read(5 * time.Second); err == nil {
+			v, err := conn.Read(5 * time.Second)
+			if err == nil && malformed && v.Kind == resp.Error {
+				_, err = conn.Read(5 * time.Second) // (an error reply for the rejected bytes is fine, then the close)
+			}
+			if err == nil {
 				problem = "a reply too many"
 			} else if rclient.IsTimeout(err) {
 				problem = "the proxy did not close the connection after the last reply"
@@ -807,7 +817,11 @@ func c01HalfClose(r *ev.Run, s *sutc.SUT, seed int64, n int) {
 			if sutDied(r, s, "half-close workload") {
 				return
 			}
-			r.Violation("C01:half-closed-client:replies-missing", "a client sent a pipeline, shut down its sending side and kept reading: it did not get one reply per request followed by the end of the stream",
+			key, what := "C01:half-closed-client:replies-missing", "a client sent a pipeline, shut down its sending side and kept reading: it did not get one reply per request followed by the end of the stream"
+			if malformed {
+				key, what = "C01:replies-dropped-before-rejected-bytes", "a client sent a pipeline of valid requests followed by bytes the decoder rejects: the connection was closed without the replies to the requests that had been read"
+			}
+			r.Violation(key, what,
 				map[string]interface{}{"pipeline_depth": depth, "replies_received": got, "problem": problem, "classes": func() []string {
 					var cs []string
 					for _, q := range reqs[:min(len(reqs), 8)] {
